@@ -668,7 +668,7 @@ theorem get_plain_rt (file : Bytes) (m : XMap) (opt : FmtOpt) (n g : Nat) (o : O
     (hat : At file pos.toNat (objHeader n g ++ body ++ kEndobj))
     (hg : good o = true) (hd : depthOk o) (hr : isRefObj o = false)
     (hnum : n < Gen.fio_maxXRefSize) (hgen : g ≤ Gen.fio_maxGeneration)
-    (inflate : Bytes → Option Bytes) (getInt : Obj → Option Int) :
+    (inflate : Bytes → Option Bytes) (getInt : Obj → Except Err Int) :
     ∃ r, readerGet file m 0 inflate getInt n g = .ok (some (.plain r)) ∧ nrm r = nrm o := by
   obtain ⟨rest, hdrop⟩ := At.drop hat
   obtain ⟨body', r, hf', hread, hn⟩ := indirect_obj_rt opt o hg hd hr n g hnum hgen pos.toNat getInt rest
@@ -685,7 +685,7 @@ theorem get_plain_rt (file : Bytes) (m : XMap) (opt : FmtOpt) (n g : Nat) (o : O
 /-- numbers without an entry, and free entries, are `null` -/
 theorem get_free (file : Bytes) (m : XMap) (n g : Nat) (e : XEntry)
     (hm : m.get n = none ∨ (m.get n = some e ∧ e.pos < 0))
-    (inflate : Bytes → Option Bytes) (getInt : Obj → Option Int) :
+    (inflate : Bytes → Option Bytes) (getInt : Obj → Except Err Int) :
     readerGet file m 0 inflate getInt n g = .ok none := by
   unfold readerGet
   rcases hm with h | ⟨h, hp⟩
@@ -695,7 +695,7 @@ theorem get_free (file : Bytes) (m : XMap) (n g : Nat) (e : XEntry)
 /-- a reference with the wrong generation is `null` -/
 theorem get_wrong_gen (file : Bytes) (m : XMap) (n g : Nat) (e : XEntry)
     (hm : m.get n = some e) (hg : e.gen ≠ g)
-    (inflate : Bytes → Option Bytes) (getInt : Obj → Option Int) :
+    (inflate : Bytes → Option Bytes) (getInt : Obj → Except Err Int) :
     readerGet file m 0 inflate getInt n g = .ok none := by
   unfold readerGet
   simp [hm, entryUsable, hg]
@@ -984,7 +984,7 @@ theorem file_rt_table_partial (o : WOpts) (s0 s : WState) (ops : List Op)
     (hsize : s.out.length < 10000000000)
     (hgen : ∀ n e, s.xref.get n = some e → e.gen ≤ 65535)
     (hnr : s.nextRef ≤ Gen.fio_maxXRefSize)
-    (inflate : Bytes → Option Bytes) (getInt : Obj → Option Int) :
+    (inflate : Bytes → Option Bytes) (getInt : Obj → Except Err Int) :
     ∃ m rest, openTableXRef s.out = .ok (m, kwTrailer ++ rest) ∧
       (∀ j, j < s.nextRef → m.get j = some (normTab (s.xref.get j))) ∧
       (∀ j, s.nextRef ≤ j → m.get j = none) ∧
@@ -1060,15 +1060,15 @@ example : (match initState { C02fiob.exOpts with version := 4 } with
       | .ok s => (match openTableXRef s.out with
           | .ok (m, rest) =>
             isPrefixOf kwTrailer rest && s.opts.objStm == false && s.nextRef == 5 && s.doc.length == 3 &&
-            (match readerGet s.out m 0 (fun _ => none) (fun _ => none) 1 0 with
+            (match readerGet s.out m 0 (fun _ => none) (fun _ => .error .malformed) 1 0 with
              | .ok (some (.plain (.int 5))) => true | _ => false) &&
-            (match readerGet s.out m 0 (fun _ => none) (fun _ => none) 3 0 with
+            (match readerGet s.out m 0 (fun _ => none) (fun _ => .error .malformed) 3 0 with
              | .ok (some (.plain (.name [65]))) => true | _ => false) &&
-            (match readerGet s.out m 0 (fun _ => none) (fun _ => none) 4 0 with
+            (match readerGet s.out m 0 (fun _ => none) (fun _ => .error .malformed) 4 0 with
              | .ok (some (.plain (.dict [([84], .int 1)]))) => true | _ => false) &&
-            (match readerGet s.out m 0 (fun _ => none) (fun _ => none) 3 1 with
+            (match readerGet s.out m 0 (fun _ => none) (fun _ => .error .malformed) 3 1 with
              | .ok none => true | _ => false) &&
-            (match readerGet s.out m 0 (fun _ => none) (fun _ => none) 7 0 with
+            (match readerGet s.out m 0 (fun _ => none) (fun _ => .error .malformed) 7 0 with
              | .ok none => true | _ => false)
           | _ => false)
       | _ => false)
